@@ -205,7 +205,7 @@ def esc_obligations(ctx, clause, only_funcs=None):
     number of blocks analysed."""
     opener, mattr, fdattr = find_opener(ctx)
     yielders = map_yielders(ctx)
-    allowed_reyield = {'Array._open_array': 'the opener itself',
+    allowed_reyield = {opener.qualname: 'the opener itself (found by role)',
                        'RaggedArray._view': 'deprecated low-level access, documented as such',
                        'RaggedArray.open_arrays': 'low-level access used by RaggedArray internals'}
     for f in yielders:
